@@ -2,10 +2,17 @@
 import json, os
 from vlib import core
 
-REPS = [{"A": "A", "a": "a", "1": "1", "#": "#"}, {"A": "Q", "a": "z", "1": "8", "#": "~"}]
+import random, string
+
+# two concretisations per class string: the class letters themselves, and an independent random member of the class at every position
+# (every upper-case letter, lower-case letter, digit and a set of unclassified ASCII characters occurs thousands of times per run)
+REPS = [{"A": "A", "a": "a", "1": "1", "#": "#"}, None]
+MEMBERS = {"A": string.ascii_uppercase, "a": string.ascii_lowercase, "1": string.digits, "#": "#~!@%^&*+/\\:;?{}\"'`,$"}
 
 
-def conc(chars, rep):
+def conc(chars, rep, rnd=None):
+    if rep is None:
+        return "".join(rnd.choice(MEMBERS[c]) if c in MEMBERS else c for c in chars)
     return "".join(rep.get(c, c) for c in chars)
 
 
@@ -18,10 +25,11 @@ def lexer_runs(rep, wd, binpath, cfg):
     rep.add_tlc(res)
     runs = [json.loads(p) for p in sorted(set(res.printed("LEX")))]
     cases, index = [], []
+    rnd = random.Random(core.seed() + 17)
     for m in runs:
         for ri, r in enumerate(REPS):
-            s = conc(m["s"], r)
-            if ri == 1 and s == conc(m["s"], REPS[0]):
+            s = conc(m["s"], r, rnd)
+            if ri == 1 and not any(c in MEMBERS for c in m["s"]):
                 continue
             cases.append({"s": s})
             index.append((m, s, ri))
@@ -35,11 +43,19 @@ def judge_lex(m, s, ri, r):
         return None
     if r.get("hang") or r.get("crash"):
         return ("violation", "lexer %s on %r" % ("hangs" if r.get("hang") else "crashes: " + r["crash"], s))
-    rp = REPS[ri]
     if m["refok"]:
         if r.get("err"):
             return ("violation", "%r is well-formed per the token grammar but rejected: %s at %d" % (s, r["err"]["msg"], r["err"]["pos"]))
-        want = [(t["typ"], conc(t["val"], rp), t["pos"]) for t in m["toks"]]
+        # the model's token text is over class letters: it is a piece of the class string at (or, for a folded group that drops
+        # its dash, just behind) the token's position; the expected text is the same piece of the concrete string
+        ms = "".join(m["s"])
+        def text(t):
+            v = "".join(t["val"]) if isinstance(t["val"], list) else t["val"]
+            for k in range(0, 3):
+                if ms[t["pos"] + k: t["pos"] + k + len(v)] == v:
+                    return s[t["pos"] + k: t["pos"] + k + len(v)]
+            raise core.Broken("token text %r not found at %d in %r" % (v, t["pos"], ms))
+        want = [(t["typ"], text(t), t["pos"]) for t in m["toks"]]
         got = [(t["typ"], t["val"], t["pos"]) for t in r["toks"]]
         if want != got:
             return ("violation", "%r: tokens %s, token grammar says %s" % (s, got, want))
